@@ -29,15 +29,17 @@ REQUIRED_THEOREMS = [
 def case_line(c):
     return ("mds method=%s N=%d d=%d solver=%s in=%s D=%d seed=%d exact=%d lowrank=%d data=%s"
             % (c["method"], c["N"], c["d"], c["solver"], c["inp"], c["D"], c["seed"], 1 if c["exact"] else 0,
-               1 if c["lowrank"] else 0, sp.mat_text(c["rows"])))
+               1 if c["lowrank"] else 0, sp.mat_text(c["rows"])) + sp.decoy_fields(c))
 
 
 def parse_case(line):
     f = sp.fields(line)
     rows = [[Fraction(v) for v in r.split(",")] for r in f["data"].split(";")]
-    return {"method": f["method"], "N": int(f["N"]), "d": int(f["d"]), "solver": f["solver"], "inp": f["in"],
-            "D": int(f.get("D", "0")), "seed": int(f.get("seed", "1")), "exact": f.get("exact") == "1",
-            "lowrank": f.get("lowrank") == "1", "rows": rows, "label": "replay", "rank": None}
+    c = {"method": f["method"], "N": int(f["N"]), "d": int(f["d"]), "solver": f["solver"], "inp": f["in"],
+         "D": int(f.get("D", "0")), "seed": int(f.get("seed", "1")), "exact": f.get("exact") == "1",
+         "lowrank": f.get("lowrank") == "1", "rows": rows, "label": "replay", "rank": None}
+    sp.parse_decoys(f, c)
+    return c
 
 
 def subcase(c, keep):
@@ -50,6 +52,8 @@ def subcase(c, keep):
     s["N"] = len(keep)
     s["d"] = max(1, min(c["d"], s["N"] - 1))
     s["exact"] = c["exact"] and sp.is_pow2(s["N"])
+    if c.get("sel"):
+        s["sel"] = [c["sel"][i] for i in keep]      # the decoys stay where they are
     return s
 
 
@@ -208,6 +212,7 @@ def account(ctx, c, v):
     if c.get("rank") is not None:
         ctx.stat("rank<d" if c["rank"] < c["d"] else "rank=d" if c["rank"] == c["d"] else "rank>d")
     ctx.stat("mode:exact" if c["exact"] else "mode:approx")
+    ctx.stat("id-range:shuffled-subset-with-decoys" if c.get("sel") else "id-range:identity")
     m = sp.fields("x " + v.get("cmp", "").replace("cmp=", "")) if False else None
     cmp_ = v.get("cmp", "")
     if cmp_:
@@ -260,6 +265,11 @@ def gen_cases(ctx, quick):
         cases.append({"label": label, "method": method, "solver": solver, "inp": inp, "rows": rows, "N": N, "D": D,
                       "d": d, "seed": r.range(1, 10 ** 6), "exact": exact, "rank": rank,
                       "lowrank": bool(euclid and rank is not None and rank <= d)})
+        # about half of the cases: the library is handed a NON-IDENTITY id range (shuffled subset of a larger id space with
+        # decoy samples in between); the callbacks are defined on ids, the model sees the selected samples in range order
+        if r.chance(1, 2):
+            c = cases[-1]
+            c["all"], c["sel"] = (sp.with_decoys_points if inp == "pts" else sp.with_decoys_matrix)(r, rows)
 
     def big_or_small(lo):
         return r.range(lo, 12) if r.chance(3, 4) else r.range(lo, nmax)
@@ -368,7 +378,8 @@ def correspond(ctx):
     ctx.cov["rule"] = ("public-API runs of MDS / Kernel PCA / Isomap(k=N-1) on 7 input families (random symmetric integer and "
                        "dyadic distance matrices, integer L1 metrics, Euclidean integer points of every rank, the same at "
                        "magnitudes 2^-40 .. 2^30, PSD kernels of every rank, linear kernels), N <= %d, d in {1, rank, rank+1, N-1, random}, dense solver everywhere and the "
-                       "randomized solver on inputs of rank <= d; each run = one trace (hook matrix + solver output + embedding) "
+                       "randomized solver on inputs of rank <= d; in about half of the cases the library is handed a shuffled subset of a "
+                       "larger id space (decoy samples in between) instead of the identity range; each run = one trace (hook matrix + solver output + embedding) "
                        "judged in exact rational arithmetic by model_c05; non-trivial = N >= 3; distinct by case text"
                        % (32 if quick else 64))
     ctx.assumptions += [
